@@ -76,6 +76,10 @@ class CapturedPath:
       subpath, prev_edge_subpath = item.line._compute_captured_path(nesting)
       if not subpath:
         raise gfapy.AssertionError()
+      if path and item.line._is_first_item_edge(item.orient == "-"):
+        # the first segment of the nested path is implied by an edge: as for
+        # an edge item, it is the segment where the path is, not a further one
+        prev_edge = True
       if item.orient == "+":
         for subpath_item in subpath:
           path, prev_edge = self._push_item_on_se_path(path, prev_edge,
